@@ -581,6 +581,19 @@ pub async fn run_limit(c: LimitCase) -> Result<CaseInfo, Failure> {
         1 => {
             // ---- inbound maximum packet size (gray interval avoided: M-8 / M+8)
             label = "limit-inbound-size";
+            if c.max_size == 0 && configured.max_size >= 40 {
+                // the handshake service lifted the configured limit for this connection (CONNACK without Maximum Packet
+                // Size): a frame above the configured value is handled
+                let q = if server { c.max_qos.min(1) } else { 1 };
+                let big = configured.max_size + 8;
+                eut.peer_send(&P5::Publish(Box::new(publish(q, 1, big))), &vec![1; big as usize]);
+                eut.settle().await;
+                if app.pub_enters().len() != 1 || ended(&eut) {
+                    return Err(Failure::new("inbound-size-too-strict", format!("C19/limit/{}/inbound-size-too-strict", c.role.name()), format!("the handshake lifted the configured limit of {} bytes (no Maximum Packet Size in CONNACK), yet a frame of more than {big} bytes was not handled: stops {:?}; case {c:?}", configured.max_size, app.stops())));
+                }
+                eut.finish().await;
+                return Ok(CaseInfo::nontrivial(&c).label("limit").label("limit-inbound-size-lifted-by-handshake"));
+            }
             if c.max_size == 0 || c.max_size < 40 {
                 eut.finish().await;
                 return Ok(CaseInfo::trivial());
